@@ -134,10 +134,17 @@ def run(ctx):
                               % (rt.violated, post[-1]["maxl"] - 1 if post else "?", len(trace)), ctx.save_replay("driver_trace.ndjson", src=tf))
         else:
             validated = sum(1 for e in trace if e["e"] == "Reset")
-    cov = dict(states=r0.distinct + r1.distinct, transitions=r0.generated + r1.generated, traces_validated_against_impl=validated,
+    # the affine discipline of `resource struct` values (NanoAffine.tla): seeds, TLC-confirmed rule-breaking mutants, same three tools
+    from props import c05_affine
+    astats, asamples = c05_affine.run_affine(ctx)
+    for k, v in astats.items():
+        if isinstance(v, (int, float)):
+            stats["affine:" + k] = v
+    cov_affine = {"stats": astats, "samples": asamples[:3]}
+    cov = dict(affine=cov_affine, states=r0.distinct + r1.distinct, transitions=r0.generated + r1.generated, traces_validated_against_impl=validated,
                samples=samples or [{"note": "none"}], evaluations=3 * len(results), distinct_nontrivial=len(seen), classes=dict(stats),
                rule="seeds (families + generator, all WT by NanoType.tla) x single-point mutations (operand, argtype, arity +-1, unknown / out-of-scope / other function's name, set of immutable local or parameter, wrong let / return type, dropped return, non-bool condition, unknown field / variant, tuple index); a mutant counts when TLC confirms it breaks the intended rule; distinct by source hash")
-    return "model_checking", cov, ["NanoType.tla is the definition of `violates a static rule`; use-after-consume of resource values and extern calls outside unsafe are not in the catalogue yet",
+    return "model_checking", cov, list(c05_affine.ASSUMPTIONS) + ["NanoType.tla and NanoAffine.tla are the definition of `violates a static rule`",
                                    "a diagnostic is any non-empty stderr / an `Error` line"]
 
 
